@@ -122,6 +122,9 @@ def check_case(case):
     d = os.path.join(WORK, "case")
     shutil.rmtree(d, ignore_errors=True); os.makedirs(d)
     data = build(case["filler"], case["length"], case["split"], case["placements"], case["tail"])
+    if case.get("rand_seed") is not None:          # non-periodic content: boundaries come from the rolling hash alone
+        import random as _r
+        data = _r.Random(case["rand_seed"]).randbytes(case["length"]); label("random-content" + ("<=32KiB" if len(data) <= BLOCK else ""))
     rc, err = zck_file(case, data, "file")
     if rc != 0:
         label("zck-refuses"); return None
@@ -224,7 +227,12 @@ def cases(draw):
     tail = draw(st.integers(0, len(s) - 1)) if split and draw(st.booleans()) else 0
     pieces = draw(st.one_of(st.lists(st.integers(1, 9), min_size=1, max_size=4).map(lambda v: [x * 1000 + 7 for x in v]), st.lists(st.sampled_from([1, 2, 5, 4095, 4096, 4097, 32767, 32768, 32769, 50000]), min_size=1, max_size=5),
                             st.just([BLOCK - 3]), st.just([BLOCK + 1]), st.lists(st.integers(2000, 40000), min_size=1, max_size=4)))
-    return {"split": split, "filler": filler, "length": length, "placements": [list(p) for p in placements], "tail": tail, "manual": draw(st.booleans()),
+    rand_seed = None
+    if draw(st.integers(0, 4)) == 0:     # a file of random bytes, small enough for one read block or a few blocks long, default options
+        rand_seed = draw(st.integers(0, 10 ** 6)); length = draw(st.one_of(st.integers(8193, BLOCK), st.integers(8193, BLOCK), st.integers(BLOCK + 1, 6 * BLOCK)))
+        if draw(st.integers(0, 2)) > 0:
+            split = None; placements = []; tail = 0
+    return {"rand_seed": rand_seed, "split": split, "filler": filler, "length": length, "placements": [list(p) for p in placements], "tail": tail, "manual": draw(st.booleans()) and not (rand_seed is not None and draw(st.booleans())),
             "comp": draw(st.sampled_from([None, "none", "zstd"])), "uncomp": draw(st.integers(0, 5)) == 0, "pieces": pieces,
             "p1": draw(st.integers(0, 40)), "p2": draw(st.one_of(st.integers(0, 40), st.integers(BLOCK - 8, BLOCK + 2)))}
 
